@@ -49,6 +49,9 @@ META["rule"] += (
 META["rule"] += (
     " " + 'Added after the fifth round: chains through two file formats with a change of node weights in between; half of the round trips leave the file format to be detected from the name; half of the attributed networks carry three link attributes, the second one is compared on every path.')
 
+META["rule"] += (
+    " " + 'Added after the sixth round: every saved file is loaded, the loaded network changed and saved elsewhere, and the file loaded again; an object that has refused three state changes is the input still (with its node-weight totals), and so is its copy.')
+
 FORMATS = ["graphml", "graphmlz", "pickle", "gml"]
 
 
@@ -278,6 +281,30 @@ def one_input(ctx, inp, cid, tmp, heavy=True):
                        text=fmt != "pickle")
             if ld is not None:
                 build(f"copy-of-Load:{fmt}", ld.copy, text=fmt != "pickle")
+    # an object that has refused three state changes (weights of the wrong
+    # length, a non-square adjacency, an attribute matrix of another size)
+    # is the input still - and so are its copy and its totals
+    def refused():
+        o = mk(A)
+        for bad in (lambda: setattr(o, "node_weights", np.full(n + 2, 7.5)),
+                    lambda: setattr(o, "adjacency", np.ones((2, 3), int)),
+                    lambda: o.set_link_attribute("w", np.full((1, 1), 3.0))):
+            try:
+                bad()
+            except Exception:  # noqa: refused, as it must be
+                ctx.count("refused_changes")
+        return o
+    ro = build("after-refused-changes", refused)
+    if ro is not None:
+        build("copy-after-refused-changes", ro.copy)
+        tw = float(np.sum(np.ones(n) if w is None else w))
+        if abs(float(ro.total_node_weight) - tw) > 1e-9 * max(1.0, tw) or \
+                abs(float(ro.mean_node_weight) - tw / n) > 1e-9 * max(
+                    1.0, tw / n):
+            ctx.violation(f"after-refused-changes:node-weight-totals!=input:"
+                          f"{icls}", {"total": float(ro.total_node_weight),
+                                      "mean": float(ro.mean_node_weight),
+                                      "want_total": tw}, cid)
     if base is not None:
         build("copy", base.copy)
         if not d:
@@ -308,6 +335,21 @@ def one_input(ctx, inp, cid, tmp, heavy=True):
                         silence_level=3)
                 ctx.count("roundtrips")
                 build(f"save-Load:{fmt}", rt, text=fmt != "pickle")
+
+                # the same file loaded a second time, after the network from
+                # the first load was given other weights and attributes (and
+                # saved elsewhere): the second network is the file's
+                def twice(fmt=fmt, fn=fn):
+                    first = Network.Load(fn, fileformat=fmt, silence_level=3)
+                    first.node_weights = np.arange(1.0, n + 1.0) * 0.5
+                    if W is not None and A.any():
+                        first.set_link_attribute("w", (A != 0) * 9.25)
+                    first.save(os.path.join(tmp, f"other.{fmt}"),
+                               fileformat=fmt)
+                    return Network.Load(fn, fileformat=fmt, silence_level=3)
+                ctx.count("files_loaded_twice")
+                build(f"Load-change-Load-again:{fmt}", twice,
+                      text=fmt != "pickle")
             # history on one object: save, change the node weights (back
             # to unit / to new values), save again, load the second file
             fmt = FORMATS[int(ctx.rng("fmt", cid).integers(0, len(FORMATS)))]
